@@ -17,6 +17,12 @@ are fixed the unrestricted block is the largest, and the disciplined ones remain
       window lies inside its parent and is not empty  -> none of the four known findings can trigger; any alarm is new;
   discipline 1 (15 %): the same focus discipline, geometry unrestricted (windows outside their parents, empty windows);
   discipline 0 (70 %): no restriction at all.
+The first 24 histories and every eighth after them are *stacking* histories: two to four overlapping siblings (under the
+root or inside a pane) that all cover one cell, the focus on one of them or on a child of one with its cursor on that
+cell, then rounds of one to four restacking requests — the same window twice, neighbours, front / back jumps, i.e.
+requests whose order matters — each round closed by a flush.  (They come first so that a break in how queued requests
+are applied is met where the cursor clause can judge it, before the blocks below.)  The random histories also follow a
+restacking request with a burst of further requests among the same siblings 40 % of the time.
 Every fourth history is a *scenario*: a focus chain three to five windows deep with notification switches at every
 level, side branches, distinct cursor shapes, and the focus moved back and forth across branches with a flush after
 most moves, restacking of focused windows, hide/show and shape changes in between.
@@ -277,6 +283,14 @@ class Hist:
             emit("show %d" % tgt); self.w[tgt]["vis"] = True
         elif x < 0.75:
             emit("%s %d" % (rng.choice(["raise", "raisefront", "lower", "lowerback"]), i)); self.pending.add(i)
+            if rng.random() < 0.4:
+                # a burst: more requests among the same siblings before the next flush (their order matters)
+                fam = [j for j in self.kids(self.w[i]["parent"]) if not self.w[j]["closed"]] or [i]
+                for _ in range(rng.randint(1, 3)):
+                    j = i if rng.random() < 0.4 else rng.choice(fam)
+                    emit("%s %d" % (rng.choice(["raise", "raisefront", "lower", "lowerback"]), j)); self.pending.add(j)
+                note("restack_burst")
+                if rng.random() < 0.6: emit("flush"); self.pending.clear()
         elif x < 0.83:
             h = self.holder
             if h is not None and h != 0 and self.live(h) and not self.detached(h) and rng.random() < 0.4: i = h
@@ -365,6 +379,71 @@ def scenario_history():
     emit("flush")
 
 
+RESTACK = ["raise", "raisefront", "lower", "lowerback"]
+
+def stacking_history(strict=False):
+    """Two to four overlapping siblings — under the root or inside a pane — all covering one cell; one of them, or a child
+    of one, holds the focus with its cursor on that cell.  Then rounds of one to four restacking requests (the same
+    window twice, a window and its neighbour, front / back jumps: requests whose order matters) closed by a flush, with a
+    cursor move, hide / show or a new sibling in between now and then."""
+    L, C = rng.choice([(8, 16), (10, 20), (12, 30)])
+    note("stacking")
+    h = Hist(L, C, 0, resizing=False)
+    par, pt, pl, pn, pc = 0, 0, 0, L, C
+    if rng.random() < 0.3:
+        pn, pc = rng.randint(4, L), rng.randint(6, C)
+        pt, pl = rng.randint(0, L - pn), rng.randint(0, C - pc)
+        emit("win 1 0 %d %d %d %d 0" % (pt, pl, pn, pc))
+        h.w[1] = dict(parent=0, rect=(pt, pl, pn, pc), closed=False, freed=False, vis=True)
+        par = 1; note("stacking_in_pane")
+    cl, cc = rng.randint(0, pn - 1), rng.randint(0, pc - 1)     # the contested cell, in the parent's coordinates
+    def covering():
+        if not strict and rng.random() < 0.12:
+            note("stacking_sibling_off_cell"); return h.rect_in(par)
+        t = rng.randint(max(0, cl - 3), cl); l = rng.randint(max(0, cc - 5), cc)
+        return (t, l, cl - t + rng.randint(1, 3), cc - l + rng.randint(1, 5))
+    sibs = []
+    for _ in range(rng.randint(2, 4)):
+        i = len(h.w); r = covering()
+        emit("win %d %d %d %d %d %d %d" % ((i, par) + r + (rng.choice([0, 0, 0, 2]),)))
+        h.w[i] = dict(parent=par, rect=r, closed=False, freed=False, vis=True)
+        sibs.append(i)
+    f = rng.choice(sibs); holder = f
+    ft, fl = h.w[f]["rect"][0], h.w[f]["rect"][1]
+    if rng.random() < 0.3:
+        # the focus sits one level down: the cell belongs to a child of one of the siblings
+        g = len(h.w); _, _, fn, fc = h.w[f]["rect"]
+        emit("win %d %d 0 0 %d %d 0" % (g, f, fn, fc))
+        h.w[g] = dict(parent=f, rect=(0, 0, fn, fc), closed=False, freed=False, vis=True)
+        holder = g; note("stacking_focus_in_child")
+    emit("curpos %d %d %d" % (holder, cl - ft, cc - fl))
+    if rng.random() < 0.5: emit("curshape %d %d" % (holder, rng.choice([1, 2, 3])))
+    emit("focus %d" % holder); h.holder = holder
+    emit("flush")
+    for _ in range(rng.randint(3, 8)):
+        k = rng.choice([1, 2, 2, 2, 3, 3, 4])
+        a = rng.choice(sibs)
+        for n in range(k):
+            x = rng.random()
+            j = f if x < 0.35 else a if x < 0.65 else rng.choice(sibs)
+            emit("%s %d" % (rng.choice(RESTACK), j))
+        if k > 1: note("stacking_burst_%d" % k)
+        y = rng.random()
+        if y < 0.08:
+            emit("curpos %d %d %d" % (holder, cl - ft + rng.choice([0, 0, 1, -1]), cc - fl + rng.choice([0, 0, 1, -1])))
+        elif y < 0.14:
+            j = rng.choice(sibs); emit("hide %d" % j)
+            if rng.random() < 0.6: emit("flush")
+            emit("show %d" % j)
+            if j == f or holder == j: emit("focus %d" % holder)
+        elif y < 0.2 and len(h.w) < 8:
+            i = len(h.w); r = covering()
+            emit("win %d %d %d %d %d %d %d" % ((i, par) + r + (rng.choice([0, 2]),)))
+            h.w[i] = dict(parent=par, rect=r, closed=False, freed=False, vis=True)
+            sibs.append(i)
+        emit("flush")
+
+
 def random_history(disc):
     L, C = rng.choice([(1, 1), (3, 4), (6, 10), (8, 16), (8, 16), (10, 20), (12, 30)])
     note("discipline_%d" % disc)
@@ -417,11 +496,23 @@ if a.tier == "exhaustive":
             for s in seq: emit(s)
             emit("flush")
             nh2 += 1
-    info = {"exhaustive_bound": "every sequence of <=4 operations from an 18-letter alphabet (incl. a reposition of window 1, without exposes when it holds the focus) on a fixed two-level tree (root, two overlapping children, one grandchild), each closed by a flush; and on the library's mock terminal, with explicit blink modes and distinct shapes, every sequence of <=3 operations from a 20-letter alphabet that includes four terminal resizes", "histories": nh + nh2}
+    # restacking requests in every order: three overlapping siblings over the focused window's cursor cell, every sequence
+    # of <= 4 requests / flushes, closed by a flush
+    setup3 = ["new 6 10", "win 1 0 1 1 3 5 0", "win 2 0 1 1 3 5 0", "win 3 0 0 0 3 4 0", "curpos 1 1 1", "curshape 1 2", "focus 1", "flush"]
+    alphabet3 = ["%s %d" % (o, w) for w in (1, 2) for o in RESTACK] + ["raisefront 3", "lower 3", "flush"]
+    nh3 = 0
+    for k in range(1, 5):
+        for seq in itertools.product(alphabet3, repeat=k):
+            for s in setup3: emit(s)
+            for s in seq: emit(s)
+            emit("flush")
+            nh3 += 1
+    info = {"exhaustive_bound": "every sequence of <=4 operations from an 18-letter alphabet (incl. a reposition of window 1, without exposes when it holds the focus) on a fixed two-level tree (root, two overlapping children, one grandchild), each closed by a flush; and on the library's mock terminal, with explicit blink modes and distinct shapes, every sequence of <=3 operations from a 20-letter alphabet that includes four terminal resizes; and every sequence of <=4 restacking requests / flushes from an 11-letter alphabet over three overlapping siblings that all cover the focused window's cursor cell", "histories": nh + nh2 + nh3}
 else:
     H = 1800 if a.tier == "quick" else 12000
     for k in range(H):
-        if k % 4 == 3: scenario_history()
+        if k < 24 or k % 8 == 5: stacking_history(strict=k < 24)
+        elif k % 4 == 3: scenario_history()
         else: random_history(2 if k < 0.15 * H else 1 if k < 0.3 * H else 0)
     info = {"histories": H}
 
